@@ -70,6 +70,11 @@ type Contract struct {
 	Notes    []string
 }
 
+// usesInferredFrame: "assigns inferred", or a light-mode contract without any assigns clause.
+func (ct *Contract) usesInferredFrame() bool {
+	return ct.AssignsInferred || (ct.Light && !ct.HasAssigns)
+}
+
 type ContractSet struct {
 	Funcs   map[string]*Contract // key: pkgpath + "::" + key
 	Specs   map[string]*SpecFn
